@@ -7,14 +7,15 @@ use crate::types::FrameStatus;
 #[path = "/verif/harness/playback/acl.rs"]
 mod playback;
 
-// Per-frame verdicts handed out by the stubbed evaluator (arbitrary).
+// Per-frame verdicts handed out by the stubbed evaluator (arbitrary).  The
+// frame is recognised by the address of its metadata map.
 static mut ALLOW: [bool; 3] = [false; 3];
-static mut CTX_SEEN: bool = false;
-fn stub_evaluate(metadata: &BTreeMap<String, String>, context: Option<&NormalizedAclContext>) -> AclDecision {
-    // the frame is identified by a marker the harness put into its metadata length
+static mut ADDR: [usize; 3] = [0; 3];
+fn stub_evaluate(metadata: &BTreeMap<String, String>, _context: Option<&NormalizedAclContext>) -> AclDecision {
     unsafe {
-        if context.is_some() { CTX_SEEN = true; }
-        let k = metadata.len();
+        let a = metadata as *const BTreeMap<String, String> as usize;
+        let mut k = 3;
+        if a == ADDR[0] { k = 0; } else if a == ADDR[1] { k = 1; } else if a == ADDR[2] { k = 2; }
         if k < 3 && ALLOW[k] { AclDecision::allow() } else { AclDecision::deny_restricted() }
     }
 }
@@ -23,7 +24,7 @@ static mut TENANT_OK: bool = false;
 fn stub_normalize(context: Option<&AclContext>) -> Option<NormalizedAclContext> {
     let c = context?;
     if c.tenant_id.is_some() && unsafe { TENANT_OK } {
-        Some(unsafe { core::mem::zeroed() })
+        Some(NormalizedAclContext { tenant_id: String::new(), subject_id: None, roles: HashSet::new(), group_ids: HashSet::new() })
     } else {
         None
     }
@@ -46,19 +47,18 @@ verif_proof! { [C12]
         let mut toc = crate::memvid::lifecycle::empty_toc();
         let mut i = 0;
         while i < 3 {
-            let mut f = mk_frame(i as u64, 0, FrameStatus::Active);
-            // marker: frame i carries i metadata entries
-            let mut k = 0;
-            while k < i {
-                f.extra_metadata.insert(if k == 0 { "a".to_string() } else { "b".to_string() }, String::new());
-                k += 1;
-            }
-            toc.frames.push(f);
+            toc.frames.push(mk_frame(i as u64, 0, FrameStatus::Active));
             i += 1;
         }
         let mv = mk_memvid(toc, mk_header(65536));
         let allow: [bool; 3] = kani::any();
-        unsafe { ALLOW = allow; TENANT_OK = kani::any(); }
+        unsafe {
+            ALLOW = allow;
+            TENANT_OK = kani::any();
+            ADDR[0] = &mv.toc.frames[0].extra_metadata as *const BTreeMap<String, String> as usize;
+            ADDR[1] = &mv.toc.frames[1].extra_metadata as *const BTreeMap<String, String> as usize;
+            ADDR[2] = &mv.toc.frames[2].extra_metadata as *const BTreeMap<String, String> as usize;
+        }
         let ids: [u64; 3] = kani::any();
         kani::assume(ids[0] <= 3 && ids[1] <= 3 && ids[2] <= 3); // 3 = unknown frame
         let mut hits = vec![mk_hit(1, ids[0]), mk_hit(2, ids[1]), mk_hit(3, ids[2])];
@@ -111,61 +111,88 @@ verif_proof! { [C12]
     }
 }
 
-// C12 decision core: with the metadata parser replaced by an arbitrary parse
-// result over a 2-word vocabulary, evaluate_acl_metadata allows only
-// same-tenant frames that are public or name the caller's principal/role/group.
+// C12 decision core: the metadata parser is replaced by a parse result whose
+// string sets are concrete per harness instance (hashing symbolic strings is
+// intractable); tenant equality, visibility and parse success stay symbolic.
+// MATCH: 0 = nothing matches, 1 = role matches, 2 = group matches, 3 = principal matches.
 static mut PARSE_OK: bool = false;
-static mut P_TENANT: u8 = 0;
+static mut P_TENANT_Y: bool = false;
 static mut P_PUBLIC: bool = false;
-static mut P_ROLE: u8 = 2; // 0/1 = word, 2 = none
-static mut P_GROUP: u8 = 2;
-static mut P_PRINC: u8 = 2;
-fn word(k: u8) -> String {
-    if k == 0 { "x".to_string() } else { "y".to_string() }
-}
-fn set_of(k: u8) -> HashSet<String> {
+static mut P_MATCH: u8 = 0;
+fn one(w: &str) -> HashSet<String> {
     let mut s = HashSet::new();
-    if k < 2 { s.insert(word(k)); }
+    s.insert(w.to_string());
     s
 }
 fn stub_parse(_metadata: &BTreeMap<String, String>) -> std::result::Result<ParsedFrameAcl, ()> {
     unsafe {
         if !PARSE_OK { return Err(()); }
         Ok(ParsedFrameAcl {
-            tenant_id: word(P_TENANT),
+            tenant_id: if P_TENANT_Y { "y".to_string() } else { "x".to_string() },
             visibility: if P_PUBLIC { FrameVisibility::Public } else { FrameVisibility::Restricted },
-            roles: set_of(P_ROLE),
-            groups: set_of(P_GROUP),
-            principals: set_of(P_PRINC),
+            // P_MATCH == 4: the frame allows GROUP "r" and ROLE "g" — the caller has ROLE "r" and GROUP "g":
+            // same words, other namespace: no legitimate match
+            roles: if P_MATCH == 1 { one("r") } else if P_MATCH == 4 { one("g") } else { one("other") },
+            groups: if P_MATCH == 2 { one("g") } else if P_MATCH == 4 { one("r") } else { HashSet::new() },
+            principals: if P_MATCH == 3 { one("p") } else { one("q") },
         })
     }
+}
+fn decision_core(m: u8) {
+    let parse_ok: bool = kani::any();
+    let public: bool = kani::any();
+    let frame_tenant_y: bool = kani::any();
+    unsafe { PARSE_OK = parse_ok; P_TENANT_Y = frame_tenant_y; P_PUBLIC = public; P_MATCH = m; }
+    let ctx_tenant_y: bool = kani::any();
+    let ctx = NormalizedAclContext {
+        tenant_id: if ctx_tenant_y { "y".to_string() } else { "x".to_string() },
+        subject_id: Some("p".to_string()),
+        roles: one("r"),
+        group_ids: one("g"),
+    };
+    let md = BTreeMap::new();
+    let d = evaluate_acl_metadata(&md, Some(&ctx));
+    let same_tenant = ctx_tenant_y == frame_tenant_y;
+    let matches = m != 0 && m != 4;
+    let should = parse_ok && same_tenant && (public || matches);
+    if d.allowed {
+        assert!(parse_ok, "[C12] a frame with missing/invalid ACL metadata was allowed");
+        assert!(same_tenant, "[C12] a frame of another tenant was allowed");
+        assert!(public || matches, "[C12] a restricted frame was allowed without a matching principal, role or group");
+    } else {
+        assert!(!should, "[C12] an allowed frame was denied");
+    }
+    kani::cover!(d.allowed, "allowed");
+    kani::cover!(!d.allowed && parse_ok, "denied with valid metadata");
+    leak(ctx);
 }
 verif_proof! { [C12]
     #[kani::unwind(6)]
     #[kani::use_stub_set(crate::verif_env::memvid_stubs)]
     #[kani::stub(parse_acl_metadata, stub_parse)]
-    fn c12_decision_core() {
-        let pt: u8 = kani::any(); let pr: u8 = kani::any(); let pg: u8 = kani::any(); let pp: u8 = kani::any();
-        kani::assume(pt < 2 && pr < 3 && pg < 3 && pp < 3);
-        let parse_ok: bool = kani::any();
-        let public: bool = kani::any();
-        unsafe { PARSE_OK = parse_ok; P_TENANT = pt; P_PUBLIC = public; P_ROLE = pr; P_GROUP = pg; P_PRINC = pp; }
-        let ct: u8 = kani::any(); let cs: u8 = kani::any(); let cr: u8 = kani::any(); let cg: u8 = kani::any();
-        kani::assume(ct < 2 && cs < 3 && cr < 3 && cg < 3);
-        let ctx = NormalizedAclContext { tenant_id: word(ct), subject_id: if cs < 2 { Some(word(cs)) } else { None }, roles: set_of(cr), group_ids: set_of(cg) };
-        let md = BTreeMap::new();
-        let d = evaluate_acl_metadata(&md, Some(&ctx));
-        let matches = (cs < 2 && cs == pp) || (cr < 2 && cr == pr) || (cg < 2 && cg == pg);
-        let should = parse_ok && ct == pt && (public || matches);
-        if d.allowed {
-            assert!(parse_ok, "[C12] a frame with missing/invalid ACL metadata was allowed");
-            assert!(ct == pt, "[C12] a frame of another tenant was allowed");
-            assert!(public || matches, "[C12] a restricted frame was allowed without a matching principal, role or group");
-        } else {
-            assert!(!should, "[C12] an allowed frame was denied");
-        }
-        kani::cover!(d.allowed && !public, "restricted frame allowed through a match");
-        kani::cover!(!d.allowed && parse_ok && ct == pt, "restricted frame denied");
-        leak(ctx);
-    }
+    fn c12_decision_no_match() { decision_core(0); }
+}
+verif_proof! { [C12]
+    #[kani::unwind(6)]
+    #[kani::use_stub_set(crate::verif_env::memvid_stubs)]
+    #[kani::stub(parse_acl_metadata, stub_parse)]
+    fn c12_decision_role_match() { decision_core(1); }
+}
+verif_proof! { [C12]
+    #[kani::unwind(6)]
+    #[kani::use_stub_set(crate::verif_env::memvid_stubs)]
+    #[kani::stub(parse_acl_metadata, stub_parse)]
+    fn c12_decision_group_match() { decision_core(2); }
+}
+verif_proof! { [C12]
+    #[kani::unwind(6)]
+    #[kani::use_stub_set(crate::verif_env::memvid_stubs)]
+    #[kani::stub(parse_acl_metadata, stub_parse)]
+    fn c12_decision_principal_match() { decision_core(3); }
+}
+verif_proof! { [C12]
+    #[kani::unwind(6)]
+    #[kani::use_stub_set(crate::verif_env::memvid_stubs)]
+    #[kani::stub(parse_acl_metadata, stub_parse)]
+    fn c12_decision_cross_namespace() { decision_core(4); }
 }
